@@ -1004,6 +1004,31 @@ class _ModuleFunc:
 
 
 # ----------------------------------------------------------------------------- helpers for rules
+def tolerant_block(frame, body, skipped):
+    """execute statements one by one; a statement E3 cannot translate is skipped (recorded) unless the rule
+    supplies its value through `overrides`; `if` tests that cannot be decided skip the whole statement"""
+    for st in body:
+        if isinstance(st, ast.If):
+            try:
+                t = frame.truth(frame.ev(st.test), st.test)
+            except Unsupported as e:
+                t = frame.it.decider(frame, st.test) if frame.it.decider is not None else None
+                if t is None:
+                    skipped.append(f"line {st.lineno}: {str(e)[:60]}")
+                    continue
+                frame.it.assume(f"test `{ast.unparse(st.test)[:60]}` in {frame.fi.qualname} taken as {t} (decided by the rule)")
+            tolerant_block(frame, st.body if t else st.orelse, skipped)
+            continue
+        try:
+            frame.stmt(st)
+        except Unsupported as e:
+            key = (frame.fi.qualname, st.targets[0].id) if isinstance(st, ast.Assign) and isinstance(st.targets[0], ast.Name) else None
+            if key in frame.it.overrides:
+                frame.env[key[1]] = frame.it.overrides[key]  # the statement's own value is not needed: the rule supplies it
+            else:
+                skipped.append(f"line {st.lineno}: {str(e)[:60]}")
+
+
 def symbols_array(prefix, shape):
     out = np.empty(shape, dtype=object)
     for idx in np.ndindex(shape):
